@@ -177,6 +177,20 @@ func execC18(seg []Ev) []Ev {
 					c.fns.Remove(i)
 				}
 			}
+		case "addagain":
+			// the object at that position is added once more (a collection is a list: it then occurs twice)
+			i := toInt(in["index"])
+			e["index"] = i
+			e["id"] = "none"
+			if c.kind == "variables" && i >= 0 && i < c.vars.Length() {
+				v := c.vars.Get(i)
+				c.vars.Add(v)
+				e["id"] = c.id(v)
+			} else if c.kind != "variables" && i >= 0 && i < c.fns.Length() {
+				f := c.fns.Get(i)
+				c.fns.Add(f)
+				e["id"] = c.id(f)
+			}
 		case "removebyname":
 			if c.kind == "variables" {
 				c.vars.RemoveByName(name)
@@ -354,6 +368,28 @@ func execNames(in Ev) Ev {
 	}
 	e["names"] = names
 	e["after"] = snapshot()
+	// CreateVariables on a collection of the caller's: it gets variables of its own (setting one leaves the default ones alone)
+	guarded(func() {
+		other := variables.NewVariableCollection()
+		calc.CreateVariables(other)
+		before := snapshot()
+		for _, v := range other.GetAll() {
+			v.SetValue(variants.VariantFromString("set through the other collection"))
+		}
+		if after := snapshot(); fmt.Sprint(after) != fmt.Sprint(before) {
+			e["held_what"], e["held_then"], e["held_now"] = "default variables after values were set in a collection filled by CreateVariables", short(fmt.Sprint(before)), short(fmt.Sprint(after))
+		}
+		got := ""
+		for _, v := range other.GetAll() {
+			got += v.Name() + ","
+		}
+		want := ""
+		for _, n := range calc.DefaultVariables().GetAll() {
+			_ = n
+		}
+		_ = want
+		e["created"] = got
+	})
 	// the automatic variables are separate objects: giving one of them a value in place leaves the others as they were
 	if vs := calc.DefaultVariables().GetAll(); len(vs) >= 2 {
 		rest := func() string {
@@ -509,10 +545,13 @@ func genC18(g *Gen) {
 		}
 		for _, what := range []string{"variable", "function"} {
 			for _, tpl := range []string{"%s + 1", "p * (%s - q)", "Q + Min(p, %s)", "NOT (%s = p)", "p[%s]", "%s"} {
-				for _, nm := range []string{"zz", "Missing_1", "ÜBER", "x9"} {
+				for _, nm := range []string{"zz", "Missing_1", "ÜBER", "x9", "rate%d", "100%", "%s%v", "a b"} {
 					name := nm
+					if strings.ContainsAny(nm, "% ") || (nm[0] >= '0' && nm[0] <= '9') {
+						name = "\"" + nm + "\"" // such a name can only be written as a quoted identifier
+					}
 					if what == "function" {
-						name = nm + "(p)"
+						name = name + "(p)"
 					}
 					g.Run("one unresolved "+what, []Ev{{"op": "missing", "what": what, "key": strings.ToLower(nm), "text": fmt.Sprintf(tpl, name)}})
 					if what == "variable" {
@@ -527,20 +566,20 @@ func genC18(g *Gen) {
 			switch op {
 			case "add":
 				return Ev{"op": op, "name": names[x%len(names)], "isnull": x%2 == 0}
-			case "remove", "get":
+			case "remove", "get", "addagain":
 				return Ev{"op": op, "index": x % 4}
 			case "clear", "clearvalues", "length":
 				return Ev{"op": op}
 			}
 			return Ev{"op": op, "name": names[x%len(names)]}
 		}
-		ops := []string{"add", "find", "findindex", "locate", "remove", "removebyname", "clear", "clearvalues", "setvalue", "length", "get"}
+		ops := []string{"add", "find", "findindex", "locate", "remove", "removebyname", "clear", "clearvalues", "setvalue", "length", "get", "addagain"}
 		// exhaustive: all sequences of 3 (quick) / 4 (thorough) state-changing operations over {a, A, b}, each followed by lookups
 		var steps []Ev
 		for _, nm := range []string{"a", "A", "b"} {
 			steps = append(steps, Ev{"op": "add", "name": nm, "isnull": false}, Ev{"op": "locate", "name": nm}, Ev{"op": "removebyname", "name": nm})
 		}
-		steps = append(steps, Ev{"op": "remove", "index": 0}, Ev{"op": "remove", "index": 1}, Ev{"op": "clear"}, Ev{"op": "clearvalues"})
+		steps = append(steps, Ev{"op": "remove", "index": 0}, Ev{"op": "remove", "index": 1}, Ev{"op": "clear"}, Ev{"op": "clearvalues"}, Ev{"op": "addagain", "index": 0})
 		depth := g.Pick(3, 4)
 		for _, kind := range []string{"variables", "functions"} {
 			idx := make([]int, depth)
